@@ -118,6 +118,12 @@ func (p Pkt) tree() sx.T {
 
 // RxRun feeds packets to a fresh channel 0 and returns the per-packet observations.
 func RxRun(need, nenv, ps0 int, pkts []Pkt) (res sx.L, fed int) {
+	return RxRunRegs(need, nenv, ps0, pkts, nil)
+}
+
+// RxRunRegs: as RxRun; regs[i] = {more EED hooks, more ENVCHANGE hooks} registered just before packet i is fed
+// (hooks registered between responses or in the middle of one).
+func RxRunRegs(need, nenv, ps0 int, pkts []Pkt, regs map[int][2]int) (res sx.L, fed int) {
 	info := &tds.Info{}
 	info.ChannelPackageQueueSize = 100000
 	conn, err := tds.VerifNewConn(context.Background(), info, nullTransport{}, false)
@@ -134,22 +140,41 @@ func RxRun(need, nenv, ps0 int, pkts []Pkt) (res sx.L, fed int) {
 		t      sx.T
 	}
 	var hooks []hookEv
-	for i := 0; i < need; i++ {
-		i := i
+	nEed, nEnv := 0, 0
+	addEed := func() {
+		i := nEed
+		nEed++
 		ch.RegisterEEDHooks(func(e tds.EEDPackage) {
 			n, _ := ch.VerifQueueLens()
 			_, f, _ := renderCore(&e)
 			hooks = append(hooks, hookEv{n, sx.L{sx.I(4), sx.I(int64(i)), f}})
 		})
 	}
-	for i := 0; i < nenv; i++ {
-		i := i
+	addEnv := func() {
+		i := nEnv
+		nEnv++
 		ch.RegisterEnvChangeHooks(func(typ tds.EnvChangeType, o, n string) {
 			c, _ := ch.VerifQueueLens()
 			hooks = append(hooks, hookEv{c, sx.L{sx.I(5), sx.I(int64(i)), sx.I(int64(typ)), pk.S(o), pk.S(n)}})
 		})
 	}
+	for i := 0; i < need; i++ {
+		addEed()
+	}
+	for i := 0; i < nenv; i++ {
+		addEnv()
+	}
+	pktIndex := -1
 	for _, p := range pkts {
+		pktIndex++
+		if r, ok := regs[pktIndex]; ok {
+			for i := 0; i < r[0]; i++ {
+				addEed()
+			}
+			for i := 0; i < r[1]; i++ {
+				addEnv()
+			}
+		}
 		hooks = nil
 		pkt := &tds.Packet{Data: append([]byte{}, p.Body...)}
 		pkt.Header.MsgType = tds.PacketHeaderType(p.MsgType)
@@ -519,6 +544,33 @@ func GenRx(g *pk.Gen) {
 			}
 		}
 		emitRx(g, g.Rng.Intn(2), g.Rng.Intn(2), 512, pkts, "history")
+		// the same history with hooks registered on the way (before random packets)
+		if g.WantTag("history-register") {
+			regs := map[int][2]int{}
+			var rt sx.L
+			for k := 0; k < g.Rng.Range(1, 3); k++ {
+				idx := g.Rng.Intn(len(pkts) + 1)
+				if _, dup := regs[idx]; dup {
+					continue
+				}
+				regs[idx] = [2]int{g.Rng.Intn(3), g.Rng.Intn(3)}
+			}
+			need, nenv := g.Rng.Intn(2), g.Rng.Intn(2)
+			res, fed := RxRunRegs(need, nenv, 512, pkts, regs)
+			var in sx.L
+			for _, p := range pkts[:fed] {
+				in = append(in, p.tree())
+			}
+			for idx := 0; idx <= len(pkts); idx++ {
+				if r, ok := regs[idx]; ok {
+					rt = append(rt, sx.L{sx.I(int64(idx)), sx.I(int64(r[0])), sx.I(int64(r[1]))})
+				}
+			}
+			if rt == nil {
+				rt = sx.L{}
+			}
+			g.Out.Case(14, sx.L{sx.I(int64(need)), sx.I(int64(nenv)), sx.I(512), in, rt}, res, "history-register")
+		}
 	}
 	// malformed streams: mutated responses and random bytes (the case ends at the first parse error)
 	nm := 300
